@@ -23,7 +23,7 @@ from __future__ import annotations
 import ast
 
 from .. import sym
-from ..model import AnalysisError, Program, attr_chain, norm_stmt
+from ..model import AnalysisError, inline_single_defs, Program, attr_chain, norm_stmt
 from ..paths import Arr, Const, Engine, Hooks, Opaque, Seq, State, vkey
 from ..report import Result
 from ..selftest import Variant
@@ -383,7 +383,7 @@ def _two_day(prog: Program, res: Result):
         # np.array([0.0] + [E] * k)  or  np.array([0.0] + [E for i in ...])
         v = stmt.value
         if isinstance(v, ast.Call) and v.args:
-            v = v.args[0]
+            v = inline_single_defs(f2.node, v.args[0])
         if isinstance(v, ast.BinOp) and isinstance(v.op, ast.Add):
             head, tail = v.left, v.right
             if isinstance(tail, ast.BinOp) and isinstance(tail.op, ast.Mult) and isinstance(tail.left, ast.List) and len(tail.left.elts) == 1:
